@@ -3,6 +3,8 @@
 import json, sys
 
 CLAIMED = {
+ "C10": ("3/C10", "seeded search over mutation/DAG histories with random dtype and constant=None/True/False assignments on leaves, ops and views; flags compared with the propagation rules after every statement, integer constant=False rejections checked, gradients compared with the tape with constant edges cut, and a twin execution with eligible constant leaves replaced by plain ndarrays must give bit-identical gradients",
+         "trusts: the tape; a non-constant view reached through a constant view is not judged (no statement defines its gradient); twin substitution only for constant leaves that are only read as operands of non-view ops"),
  "C13": ("3/C13", "seeded search over epoch and lock histories with naturally failing statements of every listed kind and injected kernel failures at arbitrary positions (plus GC pre-emption during rollback); snapshot-before = snapshot-after of every live object, the C08 lock model evaluated right after every failed statement, and a twin execution of the same history without the failing statements that must reach bit-identical values and gradients at every backward",
          "trusts: injected kernel faults are raised in place of the user-facing kernel only (never inside internal view replays); the gradient of the target of a failed in-place update and lingering base links are don't-care as derived from the statement (DESIGN C13)"),
  "C06": ("3/C06", "seeded search over view-heavy DAGs under several contribution schedules (which consumer delivers gradient to the base first) followed by read schedules (order/repetition of .grad reads, drops, GC); every view's gradient compared bit-exactly with the NumPy view chain applied to base.grad, memory sharing checked, pairwise grad aliasing vs data aliasing",
